@@ -105,7 +105,8 @@ func (t *vSkel) print(spell int, parent int, isLeft bool) string {
 		return name
 	case 3:
 		s := not + lp + t.l.print(spell, 0, false) + rp
-		if parent != 0 && isLeft || spell == vSpellFullParens && parent != 0 {
+		// not binds tighter than and / or: `not (P) and Q` is (not (P)) and Q
+		if spell == vSpellFullParens && parent != 0 {
 			return lp + s + rp
 		}
 		return s
